@@ -112,6 +112,11 @@ type Gen struct {
 	fn   *ssa.Function
 	fc   *FuncContract
 	pass int
+	// parameter names of the interface-method contract this implementation is checked against
+	// (name 0 = the interface value holding the receiver); nil otherwise
+	ifaceAlias []string
+	pathVarType map[string]types.Type // `pathvar` declarations (non-Boolean path variables)
+	implIfaces []types.Type // interface types some value was type-asserted to (see implFacts)
 
 	sortDecls []string
 	sortSet   map[string]bool
@@ -204,6 +209,7 @@ func (g *Gen) reset() {
 	g.callOrd = map[string]int{}
 	g.defers = nil
 	g.usedAxioms = map[string]bool{}
+	g.implIfaces = nil
 	g.closures = map[ssa.Value]*ssa.MakeClosure{}
 	g.trusted = map[string]bool{}
 	g.unknownExt = map[string]int{}
@@ -488,6 +494,11 @@ func (g *Gen) typeTag(t types.Type) string {
 	}
 	n := numI(int64(len(g.tags) + 1))
 	g.tags[k] = n
+	g.c.typeByKey[k] = types.Unalias(t)
+	// interfaces already asserted against learn about the new concrete type
+	for _, it := range g.implIfaces {
+		g.implFacts(it)
+	}
 	return n
 }
 
@@ -1055,6 +1066,19 @@ func (g *Gen) translate() {
 			if cl.Kind == "pathflag" { // ghost Booleans of this activation start false
 				g.keyDecl("L:pathflag."+cl.Label, "Bool")
 				g.entry.m["L:pathflag."+cl.Label] = "false"
+			}
+			if cl.Kind == "pathvar" { // ghost variables of this activation start at the zero value
+				ty, err := g.c.parseType(cl.Text)
+				if err != nil {
+					g.errorf("%s: pathvar %s: %v", g.fnLabel(), cl.Label, err)
+					continue
+				}
+				if g.pathVarType == nil {
+					g.pathVarType = map[string]types.Type{}
+				}
+				g.pathVarType[cl.Label] = ty
+				g.keyDecl("L:pathflag."+cl.Label, g.sortOf(ty))
+				g.entry.m["L:pathflag."+cl.Label] = g.zero(ty)
 			}
 		}
 	}
